@@ -1332,6 +1332,20 @@ async def _(mpc):
     return out
 
 
+@case('C39', 'lifted SecFld(3), 3 parties: outputs (base-field arrays) as public operands of @, np_update, np_concatenate, * 0D array', '1827b67',
+      cfg=(3, 1, False), numpy=True, expected=[[[1, 1], [0, 1]], [[1, 1], [0, 1]], [2, 2], [1, 2, 1, 2], [[2, 1], [0, 2]]])
+async def _(mpc):
+    S = mpc.SecFld(3)
+    A = S.array(np.array([[1, 2], [0, 1]]))
+    out = await mpc.output(A)
+    v = S.array(np.array([1, 2]))
+
+    async def o(x):
+        return [[int(e) for e in r] for r in (await mpc.output(x)).tolist()] if x.ndim == 2 else _ints((await mpc.output(x)).tolist())
+    return [await o(A @ out), await o(out @ A), await o(mpc.np_update(v, 0, out[0, 1])), await o(mpc.np_concatenate((A[0], out[0]))),
+            await o(A * np.array(5))]
+
+
 # ---------------------------------------------------------------------------------------------------- driver
 def _close(a, b, tol):
     if isinstance(a, (list, tuple)) and isinstance(b, (list, tuple)):
